@@ -127,7 +127,8 @@ fn prog(nch: usize, nsub: usize, w: Weights, len: usize) -> BoxedStrategy<Vec<GO
         prop_oneof![
             10 => leaf,
             1 => leafs.clone().prop_map(GOp::Spawn),
-            1 => (leafs.clone(), leafs).prop_map(|(a, b)| GOp::Join(a, b)),
+            1 => (leafs.clone(), leafs.clone()).prop_map(|(a, b)| GOp::Join(a, b)),
+            1 => (leafs.clone(), leafs).prop_map(|(a, b)| GOp::Select(a, b)),
         ]
         .boxed()
     } else {
@@ -177,7 +178,9 @@ fn scenario(w: Weights, two_tasks: bool, allow_block_on: bool) -> BoxedStrategy<
             let ntasks = if two_tasks { 2usize } else { 1 };
             (
                 prop::collection::vec(chan_spec(w.future > 0, w.stream > 0), nch),
-                prop::collection::vec(0u8..3, nsub),
+                // 0..2: status returned by the call itself; +3: a cancellation while STARTING finds
+                // the callee already done (RETURNED_CANCELLED)
+                prop::collection::vec(0u8..6, nsub),
                 if w.wake >= 4 { prop_oneof![3 => wake_pair(nch, nsub, w), 1 => prop::collection::vec(prog(nch, nsub, w, 7), ntasks)].boxed() } else { prop::collection::vec(prog(nch, nsub, w, 7), ntasks).boxed() },
                 prop::collection::vec(host_act(nch, nsub), 0..8),
                 0u8..3,
@@ -205,7 +208,7 @@ fn normalize(mut sc: Scenario) -> Scenario {
                 match o {
                     GOp::Sleep { .. } => *o = GOp::Yield,
                     GOp::Spawn(p) => strip(p),
-                    GOp::Join(a, b) => {
+                    GOp::Join(a, b) | GOp::Select(a, b) => {
                         strip(a);
                         strip(b)
                     }
@@ -586,6 +589,11 @@ fn classify(sc: &Scenario) -> Vec<&'static str> {
                 }
                 GOp::Join(a, b) => {
                     l.push("join");
+                    walk(a, l);
+                    walk(b, l)
+                }
+                GOp::Select(a, b) => {
+                    l.push("select(loser dropped)");
                     walk(a, l);
                     walk(b, l)
                 }
